@@ -14,4 +14,4 @@ reg(Check(
     modelled=["cache/cache.go: Cache.GnmiUpdate, Target.GnmiUpdate, gnmiUpdate, gnmiRemove, toDeleteNotification (with the slice-capacity aliasing of the stored prefix), Reset, Remove, Add, Sync, Connect, ConnectError, UpdateMetadata/updateMeta/generateMetaUpdates, Query; value.Equal on scalars; metadata/metadata.go; ctree via CTreeModel; path.ToStrings/joinPrefixAndPath via PathModel"],
 ),
     level_text="Theorems in coq/Props/C03.v state over the Gallina model of cache.Cache, for all histories of GnmiUpdate/Reset/Remove/Add/Sync/Connect/ConnectError/UpdateMetadata calls over any number of targets, that replaying the change feed reproduces every target's stored leaves (up to the timestamp of suppressed unchanged values), that an update is withheld only when rejected or suppressed-unchanged, that a multi notification is the sequence of its units (and of its single notifications when the future check is off; refuted otherwise), that atomic notifications are one unit; the model is tied to cache/cache.go by a correspondence run evaluated inside Coq, which also replays the implementation's own callback stream against its own Query results and checks that inputs are left unmodified (with prefix objects deliberately shared between notifications).",
-    level_note="Trusted: Coq kernel + vm_compute, the hand-written model (validated only on the explored cases), the Go harness projection. Two defects found by this check were fixed in /repo (20c4a71, 4775c12; patches in /verif/fixes); two known findings stay open (origin carried by the update path is announced but not indexed; Cache.Add on a live target announces nothing).")
+    level_note="Trusted: Coq kernel + vm_compute, the hand-written model (validated only on the explored cases), the Go harness projection. Two defects found by this check were fixed in /repo (20c4a71, 4775c12; patches in /verif/fixes); three known findings stay open (origin carried by the update path is announced but not indexed; Cache.Add on a live target announces nothing; a target-less write through the exported Target handle is announced without a target).")
